@@ -155,6 +155,49 @@ func genCall(r *lib.Rng, p *c10Pool, cat int) c10Call {
 	}
 }
 
+// runDecode feeds the operand's own text/bytes to a VALIDATING decoder: the result is the decoded
+// geometry or the validation error, whose full text is part of the observable result.
+func runDecode(op string, g geom.Geometry) string {
+	switch op {
+	case "decode.WKT":
+		d, err := geom.UnmarshalWKT(g.AsText())
+		return obsGeomErr(d, err)
+	case "decode.WKB":
+		d, err := geom.UnmarshalWKB(g.AsBinary())
+		return obsGeomErr(d, err)
+	case "decode.GeoJSON":
+		js, err := g.MarshalJSON()
+		if err != nil {
+			return "E:marshal:" + err.Error()
+		}
+		d, err := geom.UnmarshalGeoJSON(js)
+		return obsGeomErr(d, err)
+	}
+	panic("harness: unknown decode op " + op)
+}
+
+var decodeOps = []string{"decode.WKT", "decode.WKB", "decode.GeoJSON"}
+
+// errorCalls: for pools of invalid operands - every error-returning entry point on every operand,
+// flagged for many repetitions (the flag is named Overlay for its first use).
+func errorCalls(p *c10Pool) []c10Call {
+	var cs []c10Call
+	for i := range p.G {
+		i := i
+		cs = append(cs, c10Call{fmt.Sprintf("Validate:%d:0", i), true, func(p *c10Pool) (string, string) { return runUnary("Validate", p.G[i], 0), "" }})
+		for _, op := range decodeOps {
+			op := op
+			cs = append(cs, c10Call{fmt.Sprintf("%s:%d", op, i), true, func(p *c10Pool) (string, string) { return runDecode(op, p.G[i]), "" }})
+		}
+		cs = append(cs, c10Call{fmt.Sprintf("Simplify:%d:1", i), true, func(p *c10Pool) (string, string) { return runUnary("Simplify", p.G[i], 1), "" }})
+		cs = append(cs, c10Call{fmt.Sprintf("UnaryUnion:%d", i), true, func(p *c10Pool) (string, string) {
+			g, err := geom.UnaryUnion(p.G[i])
+			return obsGeomErr(g, err), ""
+		}})
+	}
+	return cs
+}
+
 func canonOf(g geom.Geometry, err error) string {
 	if err != nil {
 		return ""
@@ -579,13 +622,19 @@ func aliasChecks(p *c10Pool) []string {
 		// decoders must not keep references into the caller's buffer
 		buf := g.AsBinary()
 		d, err := geom.UnmarshalWKB(buf, geom.NoValidate{})
-		scribble(buf, 0xEE)
-		rec("UnmarshalWKB_buffer", err == nil && lib.Hex(d.AsBinary()) == want)
+		if err == nil { // (a non-finite point may decode to another value or not at all: compare the decoded value with itself)
+			w1 := lib.Hex(d.AsBinary())
+			scribble(buf, 0xEE)
+			rec("UnmarshalWKB_buffer", lib.Hex(d.AsBinary()) == w1)
+		}
 		big := flipEndian(g)
 		if big != nil {
 			d2, err2 := geom.UnmarshalWKB(big, geom.NoValidate{})
-			scribble(big, 0x11)
-			rec("UnmarshalWKB_bigendian_buffer", err2 == nil && lib.Hex(d2.AsBinary()) == want)
+			if err2 == nil {
+				w2 := lib.Hex(d2.AsBinary())
+				scribble(big, 0x11)
+				rec("UnmarshalWKB_bigendian_buffer", lib.Hex(d2.AsBinary()) == w2 && w2 == want)
+			}
 		}
 		js, err := g.MarshalJSON()
 		if err == nil {
@@ -600,8 +649,9 @@ func aliasChecks(p *c10Pool) []string {
 		var sc geom.Geometry
 		buf2 := g.AsBinary()
 		if err := sc.Scan(buf2); err == nil {
+			w4 := lib.Hex(sc.AsBinary())
 			scribble(buf2, 0x77)
-			rec("Scan_buffer", lib.Hex(sc.AsBinary()) == want)
+			rec("Scan_buffer", lib.Hex(sc.AsBinary()) == w4)
 		}
 		// constructors copy the member slices handed to them
 		switch g.Type() {
